@@ -19,13 +19,16 @@ from simkit import peers, sched
 from simkit.core import RunResult, ddmin_list, short_hash
 
 LEVEL = {"C12": "exploration"}
-TIERS = {"C12": (1600, 160, 50000, 1200)}
+TIERS = {"C12": (1800, 160, 50000, 1200)}
 PROBES = {"C12": ["fit_input_checked", "apply_input_checked", "twin_compared", "sibling_compared",
                   "parallel_fit_tasks", "parallel_apply_tasks", "interleave_schedule",
                   "pickle_midway", "nested_series_cells", "nested_array_cells", "numpy3d_input",
                   "dataframe_series_input", "int_index_input",
-                  "triggering_condition_present", "refit_compared_with_fresh"]}
-FAULT_KINDS = {"C12": ["schedule_ooo", "schedule_interleave", "pickle_roundtrip", "repeat_call"]}
+                  "triggering_condition_present", "refit_compared_with_fresh", "interloper_ran",
+                  "repeat_compared_with_first", "longer_series_than_in_fit",
+                  "reconfigured_refit_compared_with_fresh"]}
+FAULT_KINDS = {"C12": ["schedule_ooo", "schedule_interleave", "pickle_roundtrip", "repeat_call",
+                       "other_instance_interleaved"]}
 RULE = {"C12": (
     "seeded (estimator x parameters x input container x call history x n_jobs pair x schedule "
     "pair); apply-type calls in random order with repeats, pickling injected at random points. "
@@ -56,7 +59,7 @@ CLASSIFIERS = {
     "SupervisedTimeSeriesForest": {"n_estimators": [3, 4]},
     "RandomIntervalSpectralForest": {"n_estimators": [3], "min_interval": [8], "acf_lag": [4],
                                      "acf_min_values": [2]},
-    "BOSSEnsemble": {"max_ensemble_size": [2, 3]},
+    "BOSSEnsemble": {"max_ensemble_size": [2, 3, 50, 50]},
     "IndividualBOSS": {"window_size": [8], "word_length": [4]},
     "ContractableBOSS": {"n_parameter_samples": [4], "max_ensemble_size": [2]},
     "MUSE": {},
@@ -89,6 +92,17 @@ def generate(prop, rng, tier):
             "random_state": rng.randint(0, 99)}
     if cat == "forecaster":
         spec = C.gen_forecaster(rng, depth=rng.choice([0, 0, 1, 2]), allow_slow=rng.random() < 0.25)
+        r1 = rng.random()
+        if r1 < 0.08:
+            spec = {"kind": "theta", "sp": rng.choice([2, 4]), "deseasonalize": True}
+        elif r1 < 0.2:
+            # a pipeline whose treatment of a step depends on that step's tags
+            inner = rng.choice([{"kind": "deseason", "sp": rng.choice([2, 4]), "model": "additive"},
+                                {"kind": "detrend", "forecaster": None}])
+            spec = {"kind": "ttf", "transformers": [{"kind": "optional", "transformer": inner,
+                                                     "passthrough": False}],
+                    "forecaster": {"kind": "naive", "strategy": rng.choice(["last", "drift"]), "sp": 1,
+                                   "window_length": None}}
         scen["spec"] = spec
         steps = sorted(rng.sample(range(1, 8), rng.randint(1, 3)))
         scen["fh_fit"] = steps if C.needs_fh_at_fit(spec) or rng.random() < 0.3 else None
@@ -132,7 +146,7 @@ def generate(prop, rng, tier):
                           "a": rng.randint(0, 6), "len": rng.randint(9, 14),
                           "stride": rng.choice([1, 1, 1, 2])})
     elif cat == "panel":
-        name = rng.choice(sorted(PANEL_TRANSFORMERS))
+        name = rng.choice(sorted(PANEL_TRANSFORMERS) + ["PaddingTransformer", "TruncationTransformer"])
         scen["name"] = name
         scen["params"] = {k: rng.choice(v) for k, v in PANEL_TRANSFORMERS[name].items()}
         scen["panel"] = {"n": rng.randint(5, 9), "cols": rng.choice([1, 1, 2]), "len": rng.choice([16, 20])}
@@ -140,18 +154,31 @@ def generate(prop, rng, tier):
         if name in ("Rocket", "MiniRocket", "PCATransformer"):
             scen["container"] = rng.choice(["nested_series", "numpy3d", "numpy3d"])
             scen["panel"]["cols"] = 1
-        calls = [{"m": "transform", "which": rng.choice(["train", "test"])}
+        calls = [{"m": "transform", "which": rng.choice(["train", "test", "test", "long"])}
                  for _ in range(rng.randint(3, 6))]
+        if name in ("PaddingTransformer", "TruncationTransformer") and rng.random() < 0.6:
+            w = rng.choice(["train", "test"])
+            calls += [{"m": "transform", "which": w}, {"m": "transform", "which": "long"},
+                      {"m": "transform", "which": w}]
     else:
         table = CLASSIFIERS if cat == "classifier" else REGRESSORS
-        name = rng.choice(sorted(table))
+        # (BOSSEnsemble has separate sequential and parallel code paths: sampled more often)
+        name = rng.choice(sorted(table) + (["BOSSEnsemble"] * 3 if cat == "classifier" else []))
         scen["name"] = name
         scen["params"] = {k: rng.choice(v) for k, v in table[name].items()}
         if name == "ColumnEnsembleClassifier" and rng.random() < 0.5:
             scen["params"]["_same"] = True   # both columns get equally configured members ...
             scen["shared_member"] = True     # ... and the primary is given one object twice
         scen["panel"] = {"n": rng.randint(8, 12), "cols": 2 if name in ("MUSE", "ColumnEnsembleClassifier") else 1,
-                         "len": rng.choice([24, 32])}
+                         "len": rng.choice([24, 32]),
+                         # hard-to-separate classes make ties at imperfect training accuracy
+                         "sep": rng.choice([1.5, 1.5, 0.8, 0.4])}
+        if scen["panel"]["sep"] < 1.5 and name in ("BOSSEnsemble", "ContractableBOSS"):
+            scen["panel"]["n"] = rng.randint(12, 20)
+        if name == "BOSSEnsemble" and rng.random() < 0.8:
+            scen["n_jobs"], scen["sib_n_jobs"] = rng.choice([(1, 2), (2, 1), (None, 4), (3, 1)])
+            scen["params"]["max_ensemble_size"] = 50
+            scen["panel"]["len"] = 32
         scen["container"] = rng.choice(["nested_series", "nested_series", "numpy3d"]) \
             if name != "ColumnEnsembleClassifier" else "nested_series"
         ms = ["predict", "predict_proba"] if cat == "classifier" else ["predict"]
@@ -164,7 +191,18 @@ def generate(prop, rng, tier):
         calls.insert(k + 1, twin)
     for c in calls:
         c["pickle_before"] = rng.random() < 0.15
+    has_optional = '"optional"' in json.dumps(scen.get("spec", {}))
+    if calls and rng.random() < (0.8 if has_optional else 0.35):
+        # somebody else's estimator is built, fitted and used in between; afterwards an earlier
+        # call is repeated
+        k = rng.randrange(len(calls))
+        calls.insert(k + 1, {"m": "interlope",
+                             "what": "optional_other" if has_optional and rng.random() < 0.8
+                             else rng.choice(["same_class", "optional_other"]),
+                             "order": rng.sample([0, 1, 2], 3), "pickle_before": False})
+        calls.insert(k + 2, dict(calls[rng.randrange(k + 1)], pickle_before=False))
     scen["calls"] = calls
+    scen["variant_seed"] = rng.randint(0, 10 ** 6)
     return scen
 
 
@@ -226,10 +264,10 @@ def deep_equal(a, b):
 
 
 # ------------------------------------------------------------------ data
-def make_panel(seed, n, cols, length, container, index_kind):
+def make_panel(seed, n, cols, length, container, index_kind, sep=1.5):
     rs = np.random.RandomState(seed)
     arr = np.round(rs.normal(size=(n, cols, length)) + np.arange(length) * 0.05, 4)
-    arr[: n // 2, :, : length // 3] += 1.5  # two separable classes
+    arr[: n // 2, :, : length // 3] += sep  # two (more or less) separable classes
     y = np.array(["a"] * (n // 2) + ["b"] * (n - n // 2))
     yr = np.round(arr[:, 0, :].mean(axis=1) + rs.normal(size=n) * 0.1, 4)
     if container == "numpy3d":
@@ -349,6 +387,9 @@ def execute(prop, scen):
         def do_call(est, c, args):
             fh = None if (scen["fh_fit"] and C.needs_fh_at_fit(scen["spec"])) else list(c["fh"])
             return est.predict(fh)
+
+        def other_train():
+            return (y.iloc[2:scen["n"] + 2].copy(),)
     elif cat == "series":
         y = C.make_series(d["seed"], scen["n"] + 24, d["origin"], d["index"], sp=4, noise=0.8)
         base = scen["spec"]
@@ -388,11 +429,15 @@ def execute(prop, scen):
 
         def do_call(est, c, args):
             return getattr(est, c["m"])(args[0])
+
+        def other_train():
+            return (wrap(y.iloc[5:5 + scen["n"]]),)
     else:
         p = scen["panel"]
-        X, yc, yr = make_panel(d["seed"], p["n"], p["cols"], p["len"], scen["container"], d["index"])
+        sep = p.get("sep", 1.5)
+        X, yc, yr = make_panel(d["seed"], p["n"], p["cols"], p["len"], scen["container"], d["index"], sep)
         Xte, _, _ = make_panel(d["seed"] + 1, max(4, p["n"] // 2), p["cols"], p["len"],
-                               scen["container"], d["index"])
+                               scen["container"], d["index"], sep)
         target = yr if cat == "regressor" else yc
         res.probe({"nested_series": "nested_series_cells", "nested_array": "nested_array_cells",
                    "numpy3d": "numpy3d_input"}[scen["container"]])
@@ -418,9 +463,19 @@ def execute(prop, scen):
             return est.fit(args[0], args[1])
 
         tr_in, te_in = _copy(X), _copy(Xte)
+        Xlong, _, _ = make_panel(d["seed"] + 3, max(4, p["n"] // 2), p["cols"], p["len"] + 6,
+                                 scen["container"], d["index"])
+        long_in = _copy(Xlong)
 
         def call_args(c):
-            return (tr_in if c["which"] == "train" else te_in,)
+            if c["which"] == "long":
+                res.probes["longer_series_than_in_fit"] = 1
+            return (tr_in if c["which"] == "train" else long_in if c["which"] == "long" else te_in,)
+
+        def other_train():
+            Xo_, yo_, yro_ = make_panel(d["seed"] + 4, p["n"], p["cols"], p["len"], scen["container"],
+                                        d["index"], sep)
+            return (Xo_, yro_ if cat == "regressor" else yo_)
 
         def do_call(est, c, args):
             return getattr(est, c["m"])(args[0])
@@ -477,9 +532,21 @@ def execute(prop, scen):
     # ---- the call history
     n_twin = 0
     tasks_apply = 0
+    earlier = {}
     for i, c in enumerate(scen["calls"]):
         if res.violations:
             break
+        if c["m"] == "interlope":
+            with peers.paused():
+                try:
+                    with sched.scenario_schedule(sched.Scheduler("fifo", 0)):
+                        _interlope(c["what"], build, fit, other_train,
+                                   y if cat in ("forecaster", "series") else None, c.get("order"))
+                    res.probe("interloper_ran")
+                    res.fault("other_instance_interleaved")
+                except Exception as e:  # noqa
+                    digest.update(("interloper:%s" % type(e).__name__).encode())
+            continue
         if c.get("pickle_before"):
             with peers.paused():
                 est = pickle.loads(pickle.dumps(est))
@@ -529,6 +596,17 @@ def execute(prop, scen):
                 break
         n_twin += 1
         res.probe("twin_compared")
+        key = json.dumps({k_: v_ for k_, v_ in c.items() if k_ != "pickle_before"}, sort_keys=True)
+        if key in earlier:
+            res.probe("repeat_compared_with_first")
+            if not deep_equal(r, earlier[key]):
+                v("repeat_call_differs", "%s #%d returns %s, the same call returned %s earlier in the "
+                  "history (calls in between: %s)" % (c["m"], i, _short(r), _short(earlier[key]),
+                                                       sorted(set(x["m"] for x in scen["calls"][:i]))),
+                  method=c["m"])
+                break
+        else:
+            earlier[key] = r
         if not deep_equal(r, rt):
             v("result_depends_on_history", "%s #%d returns %s on the much-used estimator and %s on a "
               "restored copy that only received this call" % (c["m"], i, _short(r), _short(rt)),
@@ -556,15 +634,13 @@ def execute(prop, scen):
         res.states.add(short_hash([label, c["m"], i]))
     # ---- the much-used object fitted again on other data == a fresh equal estimator fitted
     # on that data (nothing of the first fit may survive)
-    if scen.get("refit_check", True) and not res.violations and cat in ("panel", "classifier", "regressor", "series"):
+    if scen.get("refit_check", True) and not res.violations:
         try:
+            other = other_train()
             if cat == "series":
-                other = (wrap(y.iloc[6:6 + scen["n"]]),)
                 probe_c = {"m": "transform", "a": 7, "len": 9, "stride": 1}
             else:
-                Xo, yo, yro = make_panel(d["seed"] + 2, p["n"], p["cols"], p["len"], scen["container"], d["index"])
-                other = (Xo, yro if cat == "regressor" else yo)
-                probe_c = scen["calls"][0]
+                probe_c = [c_ for c_ in scen["calls"] if c_["m"] != "interlope"][0]
             fresh = build(scen["n_jobs"])
             sE = sched.Scheduler("fifo", 0)
             with sched.scenario_schedule(sE):
@@ -580,6 +656,31 @@ def execute(prop, scen):
                           "%s" % (probe_c["m"], _short(r1), _short(r2)), method=probe_c["m"])
         except Exception as e:  # noqa
             digest.update(("refit:%s" % type(e).__name__).encode())
+    # ---- ... and reconfigured with set_params and fitted again == a fresh estimator built
+    # with that configuration
+    if cat == "forecaster" and not res.violations:
+        spec2 = _variant(scen["spec"], scen.get("variant_seed", 0))
+        if spec2 != scen["spec"]:
+            try:
+                fresh = C.build(_set_n_jobs(spec2, scen["n_jobs"]))
+                newp = {k_: v_ for k_, v_ in fresh.get_params(deep=True).items()
+                        if not hasattr(v_, "get_params") and not isinstance(v_, (list, tuple))}
+                cur = est.get_params(deep=True)
+                newp = {k_: v_ for k_, v_ in newp.items() if k_ in cur and not deep_equal(cur[k_], v_)}
+                probe_c = [c_ for c_ in scen["calls"] if c_["m"] != "interlope"][0]
+                with sched.scenario_schedule(sched.Scheduler("fifo", 0)):
+                    est.set_params(**newp)
+                    fit(est, train())
+                    fit(fresh, train())
+                    r1 = do_call(est, probe_c, ())
+                    r2 = do_call(fresh, probe_c, ())
+                res.probe("reconfigured_refit_compared_with_fresh")
+                if not deep_equal(r1, r2):
+                    v("refit_differs_from_fresh", "after set_params(%s) and a second fit predict returns "
+                      "%s, a fresh estimator built with that configuration returns %s" % (
+                          sorted(newp), _short(r1), _short(r2)), method="predict", reconfigured=True)
+            except Exception as e:  # noqa
+                digest.update(("reconf:%s" % type(e).__name__).encode())
     if _rng_digest() != rng_state:
         res.probe("global_rng_touched")
     if tasks_apply:
@@ -597,6 +698,58 @@ def execute(prop, scen):
     res.nontrivial = n_twin >= 3 and (tot >= 2 or any(c.get("pickle_before") for c in scen["calls"]))
     res.digest = digest.hexdigest()[:16]
     return res
+
+
+def _variant(spec, seed):
+    """The same composition with some leaf parameters changed."""
+    import random
+    rng = random.Random(seed)
+    s2 = json.loads(json.dumps(spec))
+
+    def walk(x):
+        if isinstance(x, dict):
+            k = x.get("kind")
+            if k == "theta" and rng.random() < 0.8:
+                x["deseasonalize"] = not x.get("deseasonalize", True)
+            elif k == "naive" and rng.random() < 0.6:
+                x["strategy"] = {"last": "mean", "mean": "last", "drift": "last"}.get(x.get("strategy"), "last")
+                if x["strategy"] == "mean" and x.get("window_length") is None and x.get("sp", 1) > 1:
+                    x["strategy"] = "last"
+            elif k == "trend" and rng.random() < 0.6:
+                x["degree"] = 1 if x.get("degree", 1) != 1 else 2
+            elif k == "deseason" and rng.random() < 0.5:
+                x["model"] = "additive" if x.get("model") != "additive" else "multiplicative"
+            for v_ in x.values():
+                walk(v_)
+        elif isinstance(x, list):
+            for v_ in x:
+                walk(v_)
+    walk(s2)
+    return s2
+
+
+def _interlope(what, build, fit, other_train, y, order=None):
+    """Another user's estimator in the same process: built, fitted and used."""
+    if what == "same_class" or y is None:
+        other = build(None)
+        fit(other, other_train())
+        return
+    from sktime.forecasting.compose import TransformedTargetForecaster
+    from sktime.forecasting.naive import NaiveForecaster
+    from sktime.transformations.series.compose import OptionalPassthrough
+    from sktime.transformations.series.detrend import Deseasonalizer
+    from sktime.transformations.series.impute import Imputer
+    from sktime.transformations.series.outlier_detection import HampelFilter
+    z = y.iloc[3:23].copy()
+    inners = (Imputer(method="mean"), HampelFilter(window_length=3), Deseasonalizer(sp=2))
+    for j in (order or [0, 1, 2]):
+        inner = inners[j]
+        o = OptionalPassthrough(inner)
+        o.fit(z)
+        o.transform(z.copy())
+        f = TransformedTargetForecaster([("o", OptionalPassthrough(inner)), ("f", NaiveForecaster())])
+        f.fit(z)
+        f.predict([1, 2])
 
 
 def _rng_digest():
